@@ -4,6 +4,9 @@ import json, os, subprocess
 ROOT = os.path.dirname(os.path.dirname(os.path.abspath(__file__)))
 CHECKS = {
  # id: (engine, technique, level text, level note, design ref)
+ "C01": ("crash", "bounded-exhaustive enumeration of hostile inputs (grammar-token sequences with bounded deviations, header alphabet x bodies x truncations, all single-byte corruptions of base pictures, all short byte strings) x decoder histories x option sets, executed under catch_unwind with overflow checks in isolated, watched worker processes",
+         "Every input within the stated bounds is decoded after every history of the history alphabet with every applicable option set; a panic (overflow, out-of-bounds, division by zero, failed expect), an abort, a killed worker or a decode call without progress for 30 s is a violation; afterwards the most recent picture must be consistent with its own format. Inputs declaring more than 2^22 pixels are excluded by an exact header pre-filter and counted.",
+         "Quantifies over all byte strings: decided within the bounds only (deviation <= 2, pictures <= 6 macroblocks, strings <= 3 bytes, single-byte corruptions); random long strings are labelled sampling. No unsafe code in the crates (count recorded), so panic-free implies memory-safe.", "3.1"),
  "C02": ("intra", "bounded-exhaustive enumeration of intra-picture syntax trees (sizes, CBP x sparsity shapes, every TCOEF event form, INTRADC, DQUANT sequences, stuffing) decoded by the real decoder and compared with an independent reference decoder",
          "Small-scope exhaustive: every picture size up to a bound in three header kinds, every coded-block pattern x sparsity shape, every short/escape event over boundary levels and quantizers, every INTRADC code and position, every DQUANT triple from every PQUANT, stuffing/PEI combinations - each decoded through H263State and compared sample by sample with a naive f64 reference decoder under the rounding-boundary rule.",
          "Reference decoder and VLC tables are transcribed from the Recommendation independently of /repo; scope bounds (size <= 40/80, boundary-value level alphabets) stand for larger pictures.", "3.2"),
